@@ -67,8 +67,9 @@ def registry(rng: random.Random) -> Dict[str, Callable[[int], Callable[[], objec
         return cb.Cylinder(axis0, axis1, radius_point(0))
 
     def sketches(n_faces):
-        g = cb.Grid([0, 0, 0], [1, 1, 0], max(n_faces // 2, 1), 2) if n_faces % 2 == 0 else cb.Grid([0, 0, 0], [1, 1, 0], n_faces, 1)
-        return g
+        # classes "fewer / exactly / more faces than 4": grids of 1, 2 or 3 columns by 2 rows - the larger one contains the
+        # 2 x 2 addressing, so that nothing but the face-count check itself can reject it
+        return cb.Grid([0, 0, 0], [1, 1, 0], 1 if n_faces < 4 else (2 if n_faces == 4 else 3), 2)
 
     def mesh_with_box():
         m = cb.Mesh()
@@ -108,6 +109,10 @@ def registry(rng: random.Random) -> Dict[str, Callable[[int], Callable[[], objec
         "ExtrudedRing.chain.length": lambda v: lambda: cb.ExtrudedRing.chain(cb.ExtrudedRing(axis0, axis1, radius_point(0), 0.4 * scale), scale * v / 10.0),
         "LoftedShape.face_counts": lambda v: lambda: cb.LoftedShape(sketches(4), sketches(v).translate([0, 0, 1])),
         "LoftedShape.mid_face_counts": lambda v: lambda: cb.LoftedShape(sketches(4), sketches(4).translate([0, 0, 2]), sketches(v).translate([0, 0, 1])),
+        "LoftedShape.mid_list_first": lambda v: lambda: cb.LoftedShape(sketches(4), sketches(4).translate([0, 0, 2]),
+                                                                         [sketches(v).translate([0, 0, 0.7]), sketches(4).translate([0, 0, 1.4])]),
+        "LoftedShape.mid_list_second": lambda v: lambda: cb.LoftedShape(sketches(4), sketches(4).translate([0, 0, 2]),
+                                                                          [sketches(4).translate([0, 0, 0.7]), sketches(v).translate([0, 0, 1.4])]),
         "Angle.angle": lambda v: lambda: factory.create(Vertex(point([1, 0, 0]), 0), Vertex(point([0, 1, 0]), 1), cb.Angle(v * math.pi / 2 if abs(v) != 1 else v * math.pi / 2, ez)).third_point,
         "Curve.param": lambda v: lambda: cb.DiscreteCurve([point([i, i * i, 0]) for i in range(4)]).get_point(v),
         "Frame.add_beam.pair": lambda v: lambda: Frame().add_beam(0, 1 if v == 1 else 2, "x"),
